@@ -61,6 +61,11 @@ def single_ops(x, s, N, tier):
             ops.append(('insr %s %d fw %s' % (x, p, vals(60, n)), 'insr-fw'))
     for n in (0, 1, 3):
         ops.append(('insr %s %d in %s' % (x, s, vals(60, n)), 'insr-in-end'))
+    # single-pass range inserted mid-sequence: buffered in a temporary container (which spills to the heap beyond N)
+    for p in ps:
+        if p < s:
+            for n in (1, 2, 4):
+                ops.append(('insr %s %d in %s' % (x, p, vals(60, n)), 'insr-in-mid'))
     for p in range(s):
         if tier == 'thorough' or p in (0, s // 2, s - 1):
             ops.append(('era %s %d' % (x, p), 'era'))
@@ -259,8 +264,7 @@ def iter_fault_cases(N, M, tier):
             ops = []
             for kind in ('fw', 'in'):
                 ops += ['asr %s %s %s' % (x, kind, vals(70, n)), 'app %s %s %s' % (x, kind, vals(70, n)), 'insr %s %d %s %s' % (x, s, kind, vals(70, n))]
-                if kind == 'fw':
-                    ops += ['insr %s %d fw %s' % (x, p, vals(70, n)) for p in sorted(set([0, s // 2]))]
+                ops += ['insr %s %d %s %s' % (x, p, kind, vals(70, n)) for p in sorted(set([0, s // 2]))]
             for line in ops:
                 for k in range(0, 2 * n + 3):
                     fu = [f.format(x=x) for f in FOLLOW_UP]
